@@ -155,6 +155,11 @@ func checkCmd(args []string) {
 	e.opts = Options{TimeoutMs: 6000, Verbose: *verbose, Tier: *tier, DumpDir: *dump}
 	if *tier == "thorough" {
 		e.opts.TimeoutMs = 30000
+	} else {
+		// an obligation the full context leaves undecided gets a second query on the quantifier-free part of the
+		// context: a model found there is a candidate counterexample for the replay (quick tier: only obligations
+		// that were proved on the pinned tree are solved at all, so this costs nothing on an unchanged tree)
+		e.opts.RefuteQF = true
 	}
 	if *update {
 		// the ledger claims only what discharges well under the timeout of a registered run (3x margin)
